@@ -467,6 +467,10 @@ def write_evidence(ctx):
         cov["samples"] = [cov["samples"]]
     if "trusted_base" in cov:
         cov["trusted_base"] = [str(x) for x in cov["trusted_base"]]
+    if ctx.level == "other":
+        cov.setdefault("explanation", "executable Lean model + abstract spec run against the implementation on the same op files "
+                       "(correspondence tie and property oracle); the Lean theorems for this property are not finished, so the level is "
+                       "not 'proof'")
     cov.setdefault("trusted_base", [])
     cov.setdefault("evaluations", 0)
     cov.setdefault("distinct_nontrivial", 0)
